@@ -201,3 +201,77 @@ package session
 //@   ensures[C16] @rejected imp(!sendFailed && (perr != nil || (old(s.state) != SuccessfulLogged && old(s.state) != WaitingLogoutAnswer)), sentN == old(sentN) + 1 && rejectFor(s, sel(sentAt, old(sentN)), string(data)))
 //@   ensures[C16] @stable_on_error imp(perr != nil, s.state == old(s.state))
 //@   ensures[C16] @stable imp(old(s.state) != SuccessfulLogged, s.state != SuccessfulLogged)
+
+// ---- Logon (C06, C07, C16) ---------------------------------------------------------------
+//@ func (s *Session) checkLogonParams(incoming messages.LogonBuilder) (ok bool, tag int, reasonCode int)
+//@   pure
+//@   requires sessWF(s) && incoming != nil
+//@   ensures[C06] @iff ok == (mhas(s.Opts.AllowedEncryptedMethods, mEncrypt(incoming)) && (s.LogonSettings.HeartBtLimits == nil || (s.LogonSettings.HeartBtLimits.Min <= mHeartBtInt(incoming) && mHeartBtInt(incoming) <= s.LogonSettings.HeartBtLimits.Max)))
+//@   ensures[C06,C16] @offender imp(!ok, reasonCode == s.Opts.SessionErrorCodes.IncorrectValue && tag == ite(!mhas(s.Opts.AllowedEncryptedMethods, mEncrypt(incoming)), s.Opts.Tags.EncryptedMethod, s.Opts.Tags.HeartBtInt))
+
+// start: creates the two timers from the negotiated interval, registers the
+// refresh hooks and spawns the timer goroutines (their bodies are separate units)
+//@ func (s *Session) start() (err error)
+//@   requires sessWF(s)
+//@   modifies timersStarted
+//@   epilogue timersStarted = timersStarted || err == nil
+//@   ensures[C07,C06] imp(err == nil, timersStarted) && imp(err != nil, timersStarted == old(timersStarted))
+//@   ensures[C06,C07] s.state == old(s.state) && sentN == old(sentN) && sentAt == old(sentAt) && s.LogonSettings == old(s.LogonSettings)
+
+//@ func (s *Session) processIncSeq(incomingLogon messages.LogonBuilder)
+//@   requires sessWF(s) && incomingLogon != nil && hdr(incomingLogon) != nil && everLogged
+//@   modifies sentN, sentAt, sendFailed, clock, s.counter.*, gOut(s.counter), gIn(s.counter)
+//@   call GetCurrSeqNum#1: witness curr = ret0
+//@   call GetCurrSeqNum#1: witness cerr = ret1
+//@   ensures[C10] @gap imp(!sendFailed && cerr == nil && curr + 1 < hSeq(hdr(incomingLogon)), sentN == old(sentN) + 1 && mrole(sel(sentAt, old(sentN))) == 6 && mBeginSeqNo(sel(sentAt, old(sentN))) == curr + 1 && mEndSeqNo(sel(sentAt, old(sentN))) == 0)
+//@   ensures[C10,C06] @nogap imp(cerr != nil || curr + 1 >= hSeq(hdr(incomingLogon)), sentN == old(sentN) && sentAt == old(sentAt))
+//@   ensures[C06,C07] @stable s.state == old(s.state)
+
+//@ closure (*Session).Run#Logon (data []byte) (ok bool)
+//@   anchor LogonHandler
+//@   requires sessWF(s) && sessInv(s) && !sendFailed && s.side == sideAcceptor
+//@   modifies sentN, sentAt, sendFailed, clock, s.counter.*, gOut(s.counter), gIn(s.counter), s.state, s.LogonSettings, everLogged, trigN, trigAt, routerStopped, timersStarted
+//@   call Unmarshal#1: witness perr = ret
+//@   call Unmarshal#1: witness inc = arg0
+//@   call checkLogonParams#1: witness pok = ret0
+//@   call checkLogonParams#1: witness ptag = ret1
+//@   call LogonHandler#1: witness cberr = ret
+//@   call start#1: witness sterr = ret
+//@   ensures[C16] @continues ok
+//@   ensures[C16,C06] @damaged imp(!sendFailed && perr != nil, sentN == old(sentN) + 1 && rejectFor(s, sel(sentAt, old(sentN)), string(data)) && s.state == old(s.state))
+//@   ensures[C06] @accepted imp(perr == nil && old(s.state) == WaitingLogon, (s.state == SuccessfulLogged) == (pok && cberr == nil && sterr == nil))
+//@   ensures[C06] @answer imp(!sendFailed && perr == nil && old(s.state) == WaitingLogon && s.state == SuccessfulLogged, sentN >= old(sentN) + 1 && mrole(sel(sentAt, old(sentN))) == 1 && mHeartBtInt(sel(sentAt, old(sentN))) == mHeartBtInt(inc) && mEncrypt(sel(sentAt, old(sentN))) == mEncrypt(inc))
+//@   ensures[C06,C16] @refused imp(!sendFailed && perr == nil && old(s.state) == WaitingLogon && s.state != SuccessfulLogged, s.state == WaitingLogon && sentN == old(sentN) + 1 && mrole(sel(sentAt, old(sentN))) == 3 && mRefSeqNum(sel(sentAt, old(sentN))) == hSeq(hdr(inc)) && imp(!pok, mRefTagID(sel(sentAt, old(sentN))) == ptag))
+//@   ensures[C06,C16] @again imp(!sendFailed && perr == nil && old(s.state) == SuccessfulLogged, s.state == SuccessfulLogged && sentN == old(sentN) + 1 && mrole(sel(sentAt, old(sentN))) == 3 && mRefSeqNum(sel(sentAt, old(sentN))) == hSeq(hdr(inc)))
+//@   ensures[C07] @timers imp(timersStarted && !old(timersStarted), s.state == SuccessfulLogged)
+
+// ---- stored messages and retransmission (C10, C07, C16, C19) -----------------------------
+// save hook: every outgoing message is stored under its own sequence number
+// before it may be transmitted; a failed save refuses the message
+//@ closure (*Session).setStorageCallbacks#save (msg simplefixgo.SendingMessage) (ok bool)
+//@   anchor Save
+//@   requires sessWF(s) && msg != nil && hdr(msg) != nil
+//@   modifies gStored(s.messageStorage), gHas(s.messageStorage)
+//@   call Save#1: witness serr = ret
+//@   ensures[C19,C10] @stored imp(ok, sel(gHas(s.messageStorage), hSeq(hdr(msg))) == 1 && sel(gStored(s.messageStorage), hSeq(hdr(msg))) == msg)
+//@   ensures[C19] @refuses ok == (serr == nil)
+
+// ResendRequest: answered only when logged on, with exactly the stored messages b..e
+//@ closure (*Session).setStorageCallbacks#resend (data []byte) (ok bool)
+//@   anchor Messages
+//@   requires sessWF(s) && sessInv(s) && !sendFailed
+//@   modifies sentN, sentAt, sendFailed, clock, s.counter.*, gOut(s.counter), gIn(s.counter), resentN, resentAt
+//@   forall j int
+//@   call Unmarshal#1: witness perr = ret
+//@   call Unmarshal#1: witness req = arg0
+//@   call Messages#1: witness merr = ret1
+//@   call SendBatch#1:
+//@     witness berr = ret
+//@     inst j = j - mBeginSeqNo(req)
+//@   ensures[C16] @continues ok
+//@   ensures[C16] @damaged imp(!sendFailed && perr != nil, sentN == old(sentN) + 1 && rejectFor(s, sel(sentAt, old(sentN)), string(data)) && resentN == old(resentN))
+//@   ensures[C07,C16] @notlogged imp(!sendFailed && perr == nil && old(s.state) != SuccessfulLogged, resentN == old(resentN) && sentN == old(sentN) + 1 && rejectFor(s, sel(sentAt, old(sentN)), string(data)))
+//@   ensures[C10] @count imp(perr == nil && old(s.state) == SuccessfulLogged && merr == nil && berr == nil, resentN == old(resentN) + mEndSeqNo(req) - mBeginSeqNo(req) + 1)
+//@   ensures[C10] @exact imp(perr == nil && old(s.state) == SuccessfulLogged && merr == nil && berr == nil && mBeginSeqNo(req) <= j && j <= mEndSeqNo(req), sel(resentAt, old(resentN) + j - mBeginSeqNo(req)) == sel(gStored(s.messageStorage), j))
+//@   ensures[C10] @nothingelse imp(perr == nil && merr != nil, resentN == old(resentN))
+//@   ensures[C16] @stable s.state == old(s.state)
